@@ -38,6 +38,16 @@ def unvalidated_init(sym, *classes):
                     del cls.__init__
 
 
+def expect(sym, cond, signature, detail=""):
+    """sym.check that reports whether the assertion held.  (For a signature recorded as a known finding sym.check returns
+    instead of ending the path; assertions that only make sense if this one held must then be skipped.)"""
+    if cond:
+        sym.check(True, signature)
+        return True
+    sym.check(False, signature, detail)
+    return False
+
+
 @contextlib.contextmanager
 def patched(sym, obj, name, value):
     with sym.concrete():
